@@ -137,6 +137,25 @@ META = {
     "C19-ealready-mapped-to-connected": ("C19", "EALREADY classified CONNECTED in the errno table; needs connect interrupted by a signal with the handshake still pending at the retry"),
     "C20-map-size-stored-after-create": ("C20", "map_size stored by p_shm_new after the create helper returned; needs p_shm_new to fail in its semaphore step after mmap succeeded"),
     "C20-dir-handle-stored-after-path-copies": ("C20", "p_dir_new stores the DIR handle only after the path copies succeeded; needs the 2nd or 3rd allocation of the call to fail"),
+    # ---- round 7 ----
+    "C01-c11-lock-by-fetch-add-wraps": ("C01", "C11 spinlock lock spins on fetch_add(1) != 0: the waiters keep counting; needs 2^32 failed attempts (a long contended hold) for the counter to wrap to 0 and admit a second owner"),
+    "C02-reader-trylock-true-unless-ebusy": ("C02", "native rwlock: reader_trylock returns TRUE for every result but EBUSY; needs EAGAIN (reader count exhausted) or another failure of tryrdlock"),
+    "C03-wait-restarts-on-stale-errno-eintr": ("C03", "wait re-enters pthread_cond_wait while the result or a stale errno is EINTR; needs errno == EINTR left behind by an earlier call, then every wake-up is swallowed"),
+    "C04-sim-set-without-the-mutex": ("C04", "sim model: set and pointer_set store without the global mutex; needs a store landing inside another thread's read-modify-write"),
+    "C05-free-internal-detaches-joined-handle": ("C05", "p_uthread_free_internal detaches a joinable handle; needs a joined thread's id reused by a later thread, whose join then returns at once"),
+    "C06-platform-key-shared-static-hash": ("C06", "p_ipc_get_platform_key keeps one static SHA-1 context; needs two threads deriving keys for different names at the same time"),
+    "C07-sem-wait-retried-on-eagain": ("C07", "semaphore acquire (the shm lock) retries on EAGAIN instead of EINTR; needs a handled signal while waiting for the lock"),
+    "C08-shm-lock-semaphore-always-create": ("C08", "p_shm_new opens the lock semaphore in CREATE mode even for an existing segment; needs a second opener while the first holds the lock"),
+    "C09-poll-ignores-pollerr-only-wakeup": ("C09", "the condition wait goes back into poll when the wake-up lacks the requested event; needs POLLERR/POLLHUP alone (peer reset), then the call spins forever"),
+    "C10-new-from-fd-leaves-fd-blocking": ("C10", "p_socket_new_from_fd no longer switches the descriptor to non-blocking; needs an accepted or foreign blocking descriptor used with a timeout or in non-blocking mode"),
+    "C11-sha1-bit-length-32bit-shift": ("C11", "SHA-1 finish computes `len_low << 3` in 32 bits before widening; needs a message of 2^29 bytes or more"),
+    "C14-bst-remove-skips-null-key-notifier": ("C14", "BST remove skips the destroy notifiers when the key or value is NULL; needs a NULL key or value stored with notifiers installed"),
+    "C15-lookup-rejects-null-key": ("C15", "lookup returns (ppointer) -1 for a NULL key before searching; needs a NULL key inserted and then looked up"),
+    "C16-key-before-first-section-null-deref": ("C16", "operator precedence lets a `key = value` line before the first section through with section == NULL; needs such a line, and the parameter is appended to a NULL section"),
+    "C17-from-native-ipv6-exact-length-only": ("C17", "from_native accepts AF_INET6 only when len == sizeof(sockaddr_in6); needs the kernel's 128-byte sockaddr_storage length (accept, recvfrom)"),
+    "C18-thread-freed-after-native-create-on-name-oom": ("C18", "p_uthread_create_full frees the handle when the name copy fails after the native thread was started; needs that allocation to fail"),
+    "C19-sleep-eintr-read-from-errno-after-clock-nanosleep": ("C19", "the sleep loop reads errno after clock_nanosleep, which returns the error number instead; needs a handled signal during the sleep"),
+    "C20-new-from-fd-closes-callers-descriptor": ("C20", "p_socket_new_from_fd unwinds through p_socket_free, closing the caller's descriptor, which the caller closes again; needs the mode switch to fail and another thread opening a descriptor in between"),
 }
 
 
